@@ -73,3 +73,5 @@ func Witness(name string, v string)       {}
 func WitnessInt(name string, v int)       {}
 func Twin() bool                          { return false }
 func SetFile(path string, content string) {}
+
+func WitnessList(name string, parts ...string) {}
